@@ -12,11 +12,13 @@ TrNew == IsEvent("hnew") /\ Consume /\ Ev.ok = 1 /\ HNew(Ev.alg)
 TrUpd == IsEvent("upd") /\ Consume /\ HUpdate(Ev.c, Ev.len)
 (* hex string: the digest of exactly the accepted chunks; raw digest: same bytes, algorithm's length *)
 TrGetS == IsEvent("gets") /\ Consume /\ HGet /\ Ev.hex = Std(halg, chunks)
+(* a read whose result string could not be allocated returns nothing; the context is read (closed) all the same and keeps its digest *)
+TrGetSFail == IsEvent("getsfail") /\ Consume /\ HGet /\ Ev.null = 1
 TrGetD == IsEvent("getd") /\ Consume /\ HGet /\ Ev.hex = Std(halg, chunks) /\ Ev.n * 2 = HexLen(halg)
 TrLen == IsEvent("len") /\ Consume /\ halg # -1 /\ Ev.v * 2 = HexLen(halg) /\ UNCHANGED hvars
 TrReset == IsEvent("reset") /\ Consume /\ HReset
 TrFree == IsEvent("free") /\ Consume /\ HFree
 TrEpoch == IsEvent("Reset") /\ Consume /\ halg' = -1 /\ chunks' = <<>> /\ closed' = FALSE
-TNext == TrNew \/ TrUpd \/ TrGetS \/ TrGetD \/ TrLen \/ TrReset \/ TrFree \/ TrEpoch
+TNext == TrNew \/ TrUpd \/ TrGetS \/ TrGetSFail \/ TrGetD \/ TrLen \/ TrReset \/ TrFree \/ TrEpoch
 TSpec == TInit /\ [][TNext]_tv
 ====
